@@ -658,6 +658,17 @@ theorem evalEntry_render_string (l : Lit) (hwf : l.wf = true) :
     evalEntry (String.ofList (render l)) = denote l := by
   simp [evalEntry, evalEntry_render l hwf]
 
+/-- `eval_entry` itself (with its final `assert`): every literal except a top-level `None` is accepted and
+converted to what it denotes; `None` is refused. -/
+theorem evalEntryPy_render (l : Lit) (hwf : l.wf = true) :
+    evalEntryPy (String.ofList (render l)) =
+      match l with
+      | .none => .error .assertion
+      | _ => .ok (denote l) := by
+  unfold evalEntryPy
+  rw [evalEntry_render_string l hwf]
+  cases l <;> simp [denote]
+
 /-- Non-vacuity: a nested literal with every kind of leaf. -/
 example : evalEntry "[-5, 0.05e-3, 'ab', (None,), (True, False), (), [12.5]]" =
     denote (.list [.int true 5, .dec false 0 1 5 (some (true, 3)), .str false "ab".toList, .tuple [.none],
